@@ -210,7 +210,7 @@ Section KnnProofs.
   Proof.
     induction l as [|[i k] r IH]; intros count w; [reflexivity|].
     cbn [run_until Cursor.iterate]. unfold nearby_iter at 1. cbn [fst snd].
-    destruct (count + 1 <=? offset)%N; [apply IH|].
+    destruct (count + 1 <=? offset)%N; [apply IH|]. rewrite !next_step_eq.
     destruct (radius_stop maxd (i, k)); [reflexivity|].
     destruct (push_object test limit (sw_step w 1) (i, k)) as [w' keep].
     destruct keep; [apply IH | reflexivity].
@@ -263,7 +263,7 @@ Proof.
   - cbn [Cursor.iterate]. rewrite firstn_nil. now rewrite app_nil_r.
   - cbn [Cursor.iterate].
     assert (E : (count + 1 <=? 0)%N = false) by (apply N.leb_gt; lia). rewrite E.
-    unfold push_object. cbn [sw_step sw_items sw_iters sw_hit sw_filled].
+    rewrite next_step_eq. unfold push_object. cbn [sw_step sw_items sw_iters sw_hit sw_filled].
     destruct (sw_items w + 1 =? limit)%N eqn:El.
     + cbn [sw_filled]. apply N.eqb_eq in El.
       replace (N.to_nat (limit - sw_items w)) with 1%nat by lia. cbn [firstn]. reflexivity.
@@ -328,7 +328,7 @@ Lemma iterate_stop_ext {A} (test stop1 stop2 : A -> bool) limit offset :
   iterate test stop1 limit offset l count w = iterate test stop2 limit offset l count w.
 Proof.
   intros H. induction l as [|o r IH]; intros count w; cbn [Cursor.iterate]; [reflexivity|].
-  rewrite H. destruct (count + 1 <=? offset)%N; [apply IH|].
+  rewrite H. destruct (count + 1 <=? offset)%N; [apply IH|]. rewrite next_step_eq.
   destruct (stop2 o); [reflexivity|].
   destruct (push_object test limit (sw_step w 1) o) as [w' keep]. destruct keep; [apply IH|reflexivity].
 Qed.
